@@ -61,7 +61,11 @@ class ModuleCtx:
                 for sub in ("body", "orelse", "finalbody"):
                     self._scan(getattr(st, sub, []) or [])
                 for h in getattr(st, "handlers", []) or []:
+                    # fallbacks in ``except ImportError`` never override what the try body defines
+                    saved = (dict(self.functions), dict(self.classes), dict(self.assigns), dict(self.imports))
                     self._scan(h.body)
+                    for cur, old in zip((self.functions, self.classes, self.assigns, self.imports), saved):
+                        cur.update(old)
 
 
 class Repo:
